@@ -128,7 +128,7 @@ for k in (1, 2, 3):
                       gen_stubs=[ATO_STUB, BT_STUB] + R.NESTED_RD, arrays_uf=False, ghost=GH_I + [('unsigned long', 'N0', mem)], auto_inline=AUTO,
                       pre_c='#define UMAP_ANY_KEY 1\n', extra_c=EXTRA,
                       setup='  static struct CdnsBlockRead obj; struct CdnsDecoder dec;\n  __CPROVER_assume(%s);\n  __CPROVER_assume(obj.base.%s.n < (1UL << 60));\n' % (VALPOS, MEMBERS[k][1]),
-                      args=['&dec', '&obj'], props=['C01', 'C08', 'C03'], timeout=900,
+                      args=['&dec', '&obj'], props=['C01', 'C08', 'C03', 'C05'], timeout=900,
                       post='  if (g_exc != 0) { CANARY("decoder exception reachable"); }',
                       note='the real CdnsDecoder::read_array body bound to the %s callback of CdnsBlockRead::read: array of any length, definite or '
                            'indefinite; every delivered item is appended (none lost, none duplicated)' % MEMBERS[k][1]))
@@ -216,7 +216,7 @@ UNITS.append(Unit('rdb.read', ('CdnsBlockRead::read', None), contract=BR_C, loop
                   setup='  static struct CdnsBlockRead obj; struct CdnsDecoder dec; static struct seq_BlockParameters bp;\n  rd_init();\n'
                         '  g_wts_qr = &obj.base.m_query_responses.wv.time_offset.val; g_wts_mm = &obj.base.m_malformed_messages.wv.time_offset.val;\n'
                         '  G_qr.n = 0; G_mm.n = 0; g_raised = 0;\n',
-                  args=['&obj', '&dec', '&bp'], props=['C01', 'C17', 'C08', 'C03'], timeout=1800,
+                  args=['&obj', '&dec', '&bp'], props=['C01', 'C17', 'C08', 'C03', 'C05'], timeout=1800,
                   post='  if (g_exc != 0) { CANARY("decoder exception reachable"); }\n  if (g_exc == 0 && obj.base.m_query_responses.wi < obj.base.m_query_responses.n && obj.base.m_query_responses.wv.time_offset.has) { CANARY("resolved record reachable"); }',
                   note='block map with any number of entries in any order (unknown, negative, repeated keys), definite or indefinite: the preamble is mandatory; the '
                        'block parameters are the bounds-checked entry the preamble selects (0 if none); after the whole map is read, every stored '
@@ -514,7 +514,7 @@ for k in range(1, 10):
                       contract=bti_contract(k), loops=bti_loops(k), prelude=P, extern_records=R.EXT, stubs=BTI_STUBS, gen_stubs=R.NESTED_RD, arrays_uf=False,
                       ghost=GH_I + [('unsigned long', 'N0', None)], auto_inline=AUTO, extra_c='struct seq_u8 g_OpCodesDefault; struct seq_u16 g_RrTypesDefault;\n',
                       setup='  static struct CdnsBlockRead obj; struct CdnsDecoder dec;\n  __CPROVER_assume(%s);\n' % VALPOS,
-                      args=['&dec', '&obj'], props=['C01', 'C08', 'C03'], timeout=900, post='  if (g_exc != 0) { CANARY("decoder exception reachable"); }',
+                      args=['&dec', '&obj'], props=['C01', 'C08', 'C03', 'C05'], timeout=900, post='  if (g_exc != 0) { CANARY("decoder exception reachable"); }',
                       note='the real CdnsDecoder::read_array body bound to the k-th table callback of read_blocktables: every delivered entry is appended with add_value, '
                            'so entry j of the array gets index (old size + j)'))
 UNITS.append(Unit('rdb.read_blocktables', ('CdnsBlockRead::read_blocktables', None), contract=BTR_C, loops=bt_read_loops, prelude=P, extern_records=R.EXT,
@@ -522,7 +522,7 @@ UNITS.append(Unit('rdb.read_blocktables', ('CdnsBlockRead::read_blocktables', No
                   ghost=[('unsigned long', 'T0_' + t, '$this->base.%s.n' % t) for t in BU.TABLES],
                   extra_c='struct seq_u8 g_OpCodesDefault; struct seq_u16 g_RrTypesDefault;\n',
                   setup='  static struct CdnsBlockRead obj; struct CdnsDecoder dec;\n  rd_init(); g_raised = 0;\n  __CPROVER_assume(' + ' && '.join('obj.base.%s.n < (1UL << 31)' % t for t in BU.TABLES) + ');\n',
-                  args=['&obj', '&dec'], props=['C08', 'C01', 'C03'], timeout=1800, post='  if (g_exc != 0) { CANARY("decoder exception reachable"); }',
+                  args=['&obj', '&dec'], props=['C08', 'C01', 'C03', 'C05'], timeout=1800, post='  if (g_exc != 0) { CANARY("decoder exception reachable"); }',
                   note='tables map with any number of entries in any order (unknown, negative, repeated keys), definite or indefinite: consumed exactly; each known key '
                        'reads one array into its table; every other value is skipped as one item'))
 
